@@ -870,6 +870,11 @@ C14_TEXTS = [
     ("other-dimension-refused-2", "mass = 3 m", True, [], []),
     ("constant-refused", "fixed = {?w0} m", True, [], []),
     ("constant-refused-typed", "fixed float = 1 m", True, [], []),
+    # !constant belongs to the node it is written under, also when that node is defined inside a case clause or a group inside one
+    ("constant-defined-inside-a-case-clause-refused", "@case true\n  wdt float = 1 m\n    !constant\n@end\nwdt = {?w0} m", True, [], []),
+    ("constant-defined-inside-an-else-clause-of-a-group-refused", "box\n  @case false\n    q int = 1\n  @else\n    depth float = 2 m\n      !constant\n  @end\nbox.depth = 3 m", True, [], []),
+    ("constant-defined-inside-a-case-clause-refused-typed", "@case true\n  cn int = 3\n    !constant\n@end\ncn int = {?v0}", True, [], []),
+    ("constant-after-a-modification-of-an-earlier-node", "ca float = 1 m\ncb float = 2 m\n  !constant\nca = {?w0} m", False, [("ca", w0), ("cb", 2)], [("ca", "m")]),
     ("declared-without-value-refused", "d float cm", True, [], []),
     ("declared-then-assigned", "d float cm\nd = {?w0} mm", False, [("d", ("/", w0, 10))], [("d", "cm")]),
     ("integer-with-options-in-another-unit-keeps-its-unit", "lenm int = 2 m\n  = 2 m\n  = 300 cm\nlenm = 300 cm\nwid int = 2 km\n  !options [2,3] km\nwid = 3000 m", False, [("lenm", 3), ("wid", 3)], [("lenm", "m"), ("wid", "km")]),
@@ -1124,6 +1129,38 @@ C13_TEXTS += [
     ("tabs-inside-string-values", 'build\n  sep str = "a\tb"\n  make\n    header str = \'name\tsize\'\n    rule str = """\nall: main.o\n\tcc -o all main.o\n"""\n  n uint16 = 3\n',
      [("build.sep", "str", "a\tb", None), ("build.make.header", "str", "name\tsize", None), ("build.make.rule", "str", "all: main.o\n\tcc -o all main.o", None), ("build.n", "int", 3, None)]),
 ]
+
+
+C13_TEXTS += [
+    # indentation is what is written: a first line deeper than later lines does not shift the others
+    ("first-line-indented-deepest", '    a int = 1\n  b int = 2\n   c int = 3\n d int = 4\n  e int = 5\n',
+     [("a", "int", 1, None), ("b", "int", 2, None), ("b.c", "int", 3, None), ("d", "int", 4, None), ("d.e", "int", 5, None)]),
+]
+# the same text handed over in several pieces (add_string called repeatedly): a later piece that starts indented continues the group opened before
+C13_PIECES = [
+    ("group-continued-in-a-second-piece", ['box\n  width float = 2 cm\n', '  height float = 3 cm\n  lid\n    open bool = true\n', '    label str = "top"\nn int = 1'],
+     [("box.width", "float", 2.0, "cm"), ("box.height", "float", 3.0, "cm"), ("box.lid.open", "bool", True, None), ("box.lid.label", "str", "top", None), ("n", "int", 1, None)]),
+    ("pieces-with-blank-lines-and-a-comment", ['g\n\n  # first\n  a int = 1\n', '\n   # second piece, indented comment\n  b int = 2 m\n    !tags ["x"]\n', 'h\n  c float = 1.5'],
+     [("g.a", "int", 1, None), ("g.b", "int", 2, "m"), ("h.c", "float", 1.5, None)]),
+]
+
+
+@contract(DIPC + ".parse", ["C13"], name="DIP.parse[text-in-several-pieces]")
+def _(c):
+    c.bound = f"{len(C13_PIECES)} concrete texts handed over by two or three add_string calls"
+    for name, pieces, want in C13_PIECES:
+        def pre(b, pieces=pieces, want=want):
+            d = b.new(DIPC, name="t")
+            for piece in pieces:
+                b.call(b.getattr(d, "add_string"), piece)
+            dw = b.new(DIPC, name="whole")
+            b.call(b.getattr(dw, "add_string"), "".join(pieces))
+            whole = b.call(b.getattr(dw, "parse"))
+            return dict(args=[d], env=dict(want=want, whole=whole))
+        c.scenario(name, pre)
+    c.ensures("literal_view(result) == want", "one-parameter-per-node-with-path-type-value-and-unit-as-written")
+    c.ensures("literal_view(result) == literal_view(whole)", "same-as-the-text-handed-over-at-once")
+    c.no_raise()
 
 
 @contract(DIPC + ".parse", ["C13"], name="DIP.parse[literal-texts]")
